@@ -1,16 +1,60 @@
 """C12: the accrual failure detector (FailureDetector.tla + cmd/feng on the real detector)."""
+import os
+import re
+import shutil
+import subprocess
+import time
+
 import engine
 import gossip as G
 import vp
 from checks import prop, REPLAYERS
 
-FD_INV = ["SizeIsRecent", "SumIsLastW", "BufferIsLastW", "FirstSampleIsBootstrap", "IndexInRange", "Accuracy",
+FD_INV = ["SizeIsRecent", "SumIsLastW", "SumIsBuffer", "BufferIsLastW", "FirstSampleIsBootstrap", "IndexInRange", "Accuracy",
           "Completeness", "ZeroAtArrival"]
 FD_TRACE = FD_INV + ["NoStepViolation"]
 
 
 def fd_consts(w, b, maxgap, maxlen):
     return {"W": w, "B": b, "Gaps": set(range(1, maxgap + 1)), "MaxLen": maxlen, "Theta": 20}
+
+
+def add_sample_text(module):
+    """the body of AddSample in a module, without the ghost history"""
+    path = os.path.join(vp.SPEC, module + ".tla")
+    if not os.path.exists(path):
+        path = os.path.join(vp.SPEC, "apalache", module + ".tla")   # modules that EXTEND Apalache.tla
+    s = open(path).read()
+    m = re.search(r"^AddSample\(x\) ==\n(.*?)\n\n", s, re.S | re.M)
+    if not m:
+        raise vp.Machinery("AddSample not found in " + module)
+    lines = [re.sub(r"\s+", " ", x).strip() for x in m.group(1).splitlines() if "hist'" not in x]
+    return [x for x in lines if x]
+
+
+def induction(chk):
+    """Unbounded safety of the window bookkeeping: FDInd.tla (AddSample verbatim, no ghost history) with an
+    inductive invariant discharged by Apalache for every window size 1..8, any bootstrap interval and samples of
+    any size: Init => IndInv and IndInv /\\ Next => IndInv'."""
+    if add_sample_text("FDInd") != add_sample_text("FailureDetector"):
+        raise vp.Machinery("AddSample in FDInd.tla differs from FailureDetector.tla")
+    with vp.Scratch("apalache-C12") as d:
+        shutil.copyfile(os.path.join(vp.SPEC, "apalache", "FDInd.tla"), os.path.join(d, "FDInd.tla"))
+        for what, args in (("base", ["--init=Init", "--length=0"]), ("step", ["--init=IndInit", "--length=1"])):
+            t0 = time.time()
+            cmd = ["apalache-mc", "check", "--cinit=CInit", "--inv=IndInv", "--out-dir=" + os.path.join(d, "out")] \
+                + args + ["FDInd.tla"]
+            try:
+                p = subprocess.run(cmd, cwd=d, stdout=subprocess.PIPE, stderr=subprocess.STDOUT, text=True,
+                                   timeout=900)
+            except subprocess.TimeoutExpired:
+                raise vp.Machinery("apalache timed out on the %s case of FDInd.tla" % what)
+            ok = "The outcome is: NoError" in p.stdout
+            chk.tlc_cmds.append({"what": "apalache-induction-" + what, "cmd": " ".join(cmd[:2] + cmd[2:4] + args),
+                                 "outcome": "NoError" if ok else "Error", "wall_s": round(time.time() - t0, 1)})
+            if not ok:
+                raise vp.Machinery("the inductive invariant of FDInd.tla fails (%s case):\n%s" % (what, p.stdout[-2000:]))
+    chk.notes["unbounded_induction"] = "IndInv of FDInd.tla: W in 1..8, any B, any gaps, runs of any length"
 
 
 @prop("C12")
@@ -24,6 +68,7 @@ def c12(chk):
     chk.assumptions = ["time in whole milliseconds; the level is compared to the exact fraction within 1e-4"]
     for w, b, g, n in ([(2, 2, 2, 7), (3, 4, 3, 7)] if quick else [(1, 2, 3, 8), (2, 2, 3, 9), (3, 4, 3, 9), (4, 2, 2, 11)]):
         G.model_check(chk, "C12-W%d" % w, fd_consts(w, b, g, n), FD_INV, [], view=None, module="FailureDetector")
+    induction(chk)
     cw, cb, cg, cn = (3, 4, 2, 7) if quick else (3, 4, 3, 8)
     cc = fd_consts(cw, cb, cg, cn)
     beh, info = G.gen_cover(chk, "C12-cover", cc, module="FailureDetector", view=None, max_len=40)
